@@ -155,3 +155,6 @@ Definition plain_seg (s : bytes) : bool :=
   && negb (is_drive s).
 Definition url_plain (file : bytes) : bool :=
   negb (has_scheme file) && forallb plain_seg (split_slash [] file).
+
+(* lower-case hex digits, as hex::encode writes a digest *)
+Definition is_hexdigit (c : byte) : bool := ((48 <=? c) && (c <=? 57)) || ((97 <=? c) && (c <=? 102)).
